@@ -432,7 +432,8 @@ func c02XPaths(format string, s gen.Shape) []string {
 	switch format {
 	case "xml":
 		return []string{"a", "b", "c", "a/b", "*/c", "*", ".", "..", "../hdr", "//c", "@k", "a/@k", "a[1]", "a[2]", "a[last()]", "a[b='x']", "a[@k='1']",
-			"b[.='x']", ".//d", "a/b/c", "nosuch", "a | b", "*[1]", "text()", "a[contains(.,'x')]", "d"}
+			"b[.='x']", ".//d", "a/b/c", "nosuch", "a | b", "*[1]", "text()", "a[contains(.,'x')]", "d",
+			"*[last()]", "a[position()=last()]", "a[last()]/b", "*[position()<last()]", "b[last()]", "*[last()]/@k"}
 	case "json":
 		return []string{"a", "b", "c", "a/b", "*/c", "*", ".", "..", "../../hdr", "//c", "a/*", "a[1]", "a/*[1]", "a[b='x']", "b[.='x']", ".//d", "a/b/c", "nosuch", "d", "a/*/b"}
 	default:
